@@ -318,7 +318,7 @@ Proof.
   intros Hn. unfold offset_table_header, hdr_fields, max_power_of_2. cbn [fst snd].
   replace (65535 <? num) with false by lia. replace (num <=? 0) with false by lia.
   destruct (log2_bounds num Hn) as [Hl Hp]. pose proof (pow2_le_2048 _ Hl).
-  unfold u16_arith.
+  unfold u16_checked, u16_arith.
   replace ((0 <=? 2 ^ Z.log2 num * 16) && (2 ^ Z.log2 num * 16 <? 65536)) with true by lia. cbn [bind].
   replace ((0 <=? num * 16) && (num * 16 <? 65536)) with true by lia. cbn [bind].
   replace ((0 <=? num * 16 - 2 ^ Z.log2 num * 16) && (num * 16 - 2 ^ Z.log2 num * 16 <? 65536)) with true by lia.
